@@ -73,7 +73,9 @@ U == 1..Len(RefU)
 Method(i) == CASE RefU[i].kind = "ref" -> "ref" [] RefU[i].kind = "out" -> "output" [] OTHER -> "copy"
 FileOf(i) == RefU[i].file
 Rel(i) == RefU[i].name \o (IF FileOf(i) = <<>> THEN <<>> ELSE <<"/">> \o FileOf(i)) \o <<":", Method(i)>>
-Abs(i) == <<StageWord(RefU[i].st), ".">> \o Rel(i)
+(* a DIRECT reference (rep = "direct": a path of the file system or below the instance, not a component) has   *)
+(* one spelling only                                                                                             *)
+Abs(i) == IF RefU[i].rep = "direct" THEN Rel(i) ELSE <<StageWord(RefU[i].st), ".">> \o Rel(i)
 Str(i, sp) == IF sp = "abs" THEN Abs(i) ELSE Rel(i)
 Substituted(i) == RefU[i].kind # "copy"
 (* the value of reference i as text: opaque, or the quoted reference text *)
@@ -130,12 +132,19 @@ Occs(d, u, x) == OccsFrom(1, d, u) \o (IF x = 0 THEN <<>> ELSE <<<<"occ", x, IF 
 (* styles: "plain"  -v E1 E2 ...                                                                           *)
 (*         "opt"    A stage0.A --in=E1 --in=E2 ... BA: ref      (glued option prefix, literal look-alikes)   *)
 (*         "path"   En/sub.txt ... E1/sub.txt -v                (glued path suffix, reversed order)          *)
+(*         "tail"   -v --b=E1_old --b=E20 --b=E3x2              (letters, digits, "_" right after the reference: *)
+(*                  a reference ends where its method ends, whatever follows)                                       *)
+(*         "quote"  'E1' 'E2'                                                                                       *)
+Tails == <<"_old", "0", "x2">>
 Elements(d, u, x, sty) ==
   LET occs == Occs(d, u, x) IN
   CASE sty = "plain" -> <<<<"lit", <<"-v">>>>>> \o occs
     [] sty = "opt"   -> <<<<"lit", <<"A">>>>, <<"lit", <<"stage0", ".", "A">>>>>>
                         \o [k \in 1..Len(occs) |-> <<"glued", <<"--in", "=">>, occs[k], <<>>>>]
                         \o <<<<"lit", <<"B", "A", ":">>>>, <<"lit", <<"ref">>>>>>
+    [] sty = "tail"  -> <<<<"lit", <<"-v">>>>>>       \* word characters glued directly AFTER the reference
+                        \o [k \in 1..Len(occs) |-> <<"glued", <<"--b", "=">>, occs[k], <<Tails[((k - 1) % 3) + 1]>>>>]
+    [] sty = "quote" -> [k \in 1..Len(occs) |-> <<"glued", <<"'">>, occs[k], <<"'">>>>]
     [] OTHER         -> [k \in 1..Len(occs) |-> <<"glued", <<>>, Reverse(occs)[k], <<"/", "sub", ".", "txt">>>>]
                         \o <<<<"lit", <<"-v">>>>>>
 RECURSIVE Flatten(_, _)
@@ -156,7 +165,7 @@ Structural(d, u, x, sty) ==
 (* reference (start of the text, blank, "="); there the longest spelling of a declared, substituted          *)
 (* reference that is a prefix of the rest is replaced by the value of that reference.  The relative spelling *)
 (* exists only for producers of the consumer's stage.                                                        *)
-Delim == {" ", "="}
+Delim == {" ", "=", "'"}
 Spellings(d) == {<<i, "abs">> : i \in {j \in Range(d) : Substituted(j)}}
                 \cup {<<i, "rel">> : i \in {j \in Range(d) : Substituted(j) /\ SameStage(j)}}
 RECURSIVE Scan(_, _, _)
@@ -209,7 +218,7 @@ ResolveUndeclared(x) == /\ Faults /\ phase = "declaring" /\ decl # <<>> /\ fault
                         /\ UNCHANGED <<decl, usage>>
 Next == \/ \E i \in U : \E u \in {<<>>, <<"rel">>, <<"abs">>, <<"rel", "abs">>, <<"abs", "rel">>, <<"rel", "rel">>, <<"abs", "abs">>} : Declare(i, u)
         \/ \E i \in U : DeclareUnused(i)
-        \/ \E sty \in {"plain", "opt", "path"}, v \in {"literal", "variable", "override"} : Resolve(sty, v)
+        \/ \E sty \in {"plain", "opt", "path", "tail", "quote"}, v \in {"literal", "variable", "override"} : Resolve(sty, v)
         \/ \E x \in U : ResolveUndeclared(x)
 Spec == Init /\ [][Next]_vars
 
@@ -320,6 +329,9 @@ LoopU(N) == << MkR(0, nW, "ref", <<>>, "loop", N), MkR(0, nW, "ref", <<"out", ".
 RefULoop0 == LoopU(0)
 RefULoop1 == LoopU(1)
 RefULoop2 == LoopU(2)
+MkD(path) == [st |-> -1, name |-> path, kind |-> "ref", file |-> <<>>, rep |-> "direct", last |-> 0]
+RefUGlue == << Mk(1, nA, "ref"), Mk(0, nA, "ref"), Mk(1, nBA, "ref"), Mk(0, nA, "out"), Mk(1, nA, "reff"),
+               MkD(<<"/", "shared", "/", "lib", ".", "db">>), MkD(<<"data", "/", "in", ".", "txt">>) >>
 RefUSix == << Mk(1, nA, "ref"), Mk(0, nA, "ref"), Mk(1, nBA, "ref"), Mk(0, nBA, "ref"), Mk(1, nA, "out"), Mk(0, nA, "out") >>
 RefUWide == << Mk(1, nA, "ref"), Mk(0, nA, "ref"), Mk(1, nBA, "ref"), Mk(0, nBA, "ref"),
                Mk(1, nBdA, "ref"), Mk(0, nxA, "ref"), Mk(1, nxA, "ref"), Mk(1, nAB, "ref"), Mk(0, nA0, "ref"),
